@@ -80,22 +80,40 @@ def exhaustive(maxlen, ifaces='i'):
 
 # ------------------------------------------------------------------ running
 
-def run_parallel(exe, lines, jobs=JOBS):
-    if len(lines) < 2000:
-        return vlib.run_lines(exe, lines, timeout=3000)
-    n = (len(lines) + jobs - 1) // jobs
-    chunks = [lines[i:i + n] for i in range(0, len(lines), n)]
-    with ThreadPoolExecutor(max_workers=jobs) as ex:
-        rs = list(ex.map(lambda c: vlib.run_lines(exe, c, timeout=3000), chunks))
-    rc = max(r[0] for r in rs)
+def run_chunk(exe, lines, env=None):
+    """run all lines; if the process dies, mark the line it died on and carry on after it"""
     out = []
-    for c, r in zip(chunks, rs):
-        o = r[1]
-        if len(o) != len(c):
-            rc = rc or 1
-            o = o + ['<missing>'] * (len(c) - len(o))
-        out += o
-    return rc, out, ''.join(r[2] for r in rs)
+    start = 0
+    crashes = 0
+    while start < len(lines):
+        rc, o, e = vlib.run_lines(exe, lines[start:], timeout=3000, env=env)
+        if o and o[-1] == '' and len(o) > len(lines) - start:
+            o = o[:-1]
+        if rc == 0 and len(o) == len(lines) - start:
+            out += o
+            break
+        k = min(len(o), len(lines) - start - 1)
+        out += o[:k]
+        out.append('CRASH rc=%d %s' % (rc, e[-200:].replace('\n', ' ')))
+        start += k + 1
+        crashes += 1
+        if crashes > 20:
+            out += ['CRASH (not run: too many crashes)'] * (len(lines) - start)
+            break
+    return out
+
+
+def run_parallel(exe, lines, jobs=JOBS, env=None):
+    """-> (rc, output lines, '') ; bounded chunks so that one process never runs too long"""
+    size = 20000
+    chunks = [lines[i:i + size] for i in range(0, len(lines), size)]
+    if len(chunks) <= 1:
+        outs = [run_chunk(exe, c, env) for c in chunks]
+    else:
+        with ThreadPoolExecutor(max_workers=jobs) as ex:
+            outs = list(ex.map(lambda c: run_chunk(exe, c, env), chunks))
+    out = [l for o in outs for l in o]
+    return (0 if len(out) == len(lines) else 1), out, ''
 
 
 def impl_line(impl, h):
@@ -146,10 +164,6 @@ def correspond(impl, model, hs):
     bad = []
     for h, a, b in zip(hs, o1, o2):
         if not full_eq(a, b):
-            if a == '<missing>':
-                a = impl_line(impl, h)
-                if full_eq(a, b):
-                    continue
             bad.append((h, a, b))
     return bad
 
